@@ -29,7 +29,7 @@ RULE = ("pairs (a, b) of time values of one representation — floats (microseco
 ASSUMPTIONS = [
     "values stay within the representable range (years 1..9999, |timedelta| < 10^9 days); outside it Python raises and nothing is claimed",
     "IEEE-754 binary64 with round-to-nearest-even (CPython float); int/int true division and float*1e6 are correctly rounded",
-    "a scheduler's `now` is a timezone-aware UTC datetime: checked at run time on every scheduler class that can be constructed here (an assumption check, not a theorem)",
+    "a scheduler's `now` is a timezone-aware UTC datetime: checked at run time (an assumption check, not a theorem) on every scheduler class that can be constructed here, on CatchScheduler over the real-time ones and on the values of ops.timestamp, in child processes whose LOCAL zone is the environment's, JST-9, EST5EDT and IST-5:30",
 ]
 
 US = 1000000
@@ -108,6 +108,8 @@ def _near(rng, v):
 
 
 def cases(rng, tier):
+    for tz in NOW_ZONES:      # "now is a timezone-aware UTC datetime", probed under several LOCAL zones (oracle only)
+        yield {"op": "now", "tz": tz}
     n = fw.tier_scale(tier, 3000, 40000)
     for _ in range(n):
         kind = rng.choice(["f", "f", "f", "td", "td", "dt", "dt", "i"])
@@ -117,6 +119,8 @@ def cases(rng, tier):
 
 
 def model_request(case):
+    if case["op"] == "now":
+        return None
     def strip(v):
         return v[:2] if v[0] == "dt" else v
     return {"op": "tc", "a": strip(case["a"]), "b": strip(case["b"])}
@@ -174,12 +178,16 @@ def _conv_all(v):
 
 
 def impl(case):
+    if case["op"] == "now":
+        return _now_case(case["tz"])
     a, fa = _conv_all(case["a"])
     b, fb = _conv_all(case["b"])
     return {"a": a, "b": b, "flags": [fa, fb]}
 
 
 def canon_impl(case, out):
+    if case["op"] == "now":
+        return {"probes": len(out["probes"])}
     return {"a": out["a"], "b": out["b"]}
 
 
@@ -208,6 +216,19 @@ BOUND = 2**52      # beyond it a double cannot hold every microsecond (documente
 
 
 def oracle(case, out):
+    if case["op"] == "now":
+        if len(out["probes"]) < 10:
+            return f"only {len(out['probes'])} clock readings could be probed"
+        for name, d in sorted(out["probes"].items()):
+            if not d["aware"]:
+                return f"TZ={case['tz']}: {name} is a naive datetime"
+            if d["offset"] != 0:
+                return f"TZ={case['tz']}: {name} has UTC offset {d['offset']} s (tzname {d['tzname']!r}): aware but not UTC"
+            if not (d["is_utc_object"] or d["tzname"] == "UTC"):
+                return f"TZ={case['tz']}: {name} has offset 0 but its zone is {d['tzname']!r}, not UTC"
+            if d.get("nonneg") is False:
+                return f"TZ={case['tz']}: {name} produced a negative interval"
+        return None
     a, b = case["a"], case["b"]
     for name, f in (("a", out["flags"][0]), ("b", out["flags"][1])):
         if not f["same"]:
@@ -243,10 +264,16 @@ def oracle(case, out):
 
 
 def nontrivial(case, out):
+    if case["op"] == "now":
+        return case["tz"] is not None
     return case["a"] != case["b"] and (case["a"][0] == "f" or True) and _val(case["a"]) != _val(case["b"])
 
 
 def bucket(case, out):
+    if case["op"] == "now":
+        yield "now-probe:TZ=" + (case["tz"] or "(environment)")
+        yield f"now-probe:readings={len(out['probes'])}"
+        return
     k = case["a"][0]
     yield "kind:" + k
     for v in (case["a"], case["b"]):
@@ -267,21 +294,36 @@ def bucket(case, out):
 
 
 def shrink(case):
+    if case["op"] == "now":
+        return
     c = dict(case); c["b"] = case["a"]; yield c
     c = dict(case); c["a"] = case["b"]; yield c
 
 
 # ----- "now is aware UTC" on every scheduler class ---------------------------------------------------
-def extra(rng, tier):
+NOW_ZONES = [None, "JST-9", "EST5EDT", "IST-5:30"]     # None = the environment's own zone
+
+
+def now_probe():
+    """Every constructible scheduler's `now`, and the timestamps the timestamp operator attaches, described
+    without reference to the local zone: (aware?, utcoffset seconds, tzname, tzinfo is timezone.utc)."""
     import asyncio
     import importlib
     import pkgutil
-    from datetime import timedelta
+    from datetime import timezone
 
-    failures, checked, skipped = [], [], []
+    import reactivex
     import reactivex.scheduler as pkg
+    from reactivex import operators as ops
     from reactivex.scheduler.scheduler import Scheduler
+    from reactivex.testing import TestScheduler
 
+    def describe(dt):
+        off = dt.utcoffset()
+        return {"aware": dt.tzinfo is not None, "offset": None if off is None else off.total_seconds(),
+                "tzname": dt.tzname(), "is_utc_object": dt.tzinfo is timezone.utc}
+
+    out, skipped = {}, []
     classes = {}
     for m in pkgutil.walk_packages(pkg.__path__, pkg.__name__ + "."):
         try:
@@ -292,14 +334,14 @@ def extra(rng, tier):
         for name, obj in vars(mod).items():
             if isinstance(obj, type) and issubclass(obj, Scheduler) and obj.__module__ == mod.__name__:
                 classes[f"{mod.__name__}.{name}"] = obj
-    from reactivex.testing import TestScheduler
     classes["reactivex.testing.testscheduler.TestScheduler"] = TestScheduler
     loop = asyncio.new_event_loop()
+    instances = {}
     try:
         for qn, cls in sorted(classes.items()):
             inst = None
             for mk in (lambda: cls(), lambda: cls(loop), lambda: cls(loop=loop),
-                       lambda: cls(__import__("reactivex").scheduler.ImmediateScheduler(), lambda e: True)):
+                       lambda: cls(reactivex.scheduler.ImmediateScheduler(), lambda e: True)):
                 try:
                     inst = mk()
                     break
@@ -309,13 +351,34 @@ def extra(rng, tier):
                 skipped.append(f"{qn}: not constructible here")
                 continue
             try:
-                now = inst.now
+                out["now:" + qn] = describe(inst.now)
+                instances[qn] = inst
             except Exception as e:  # noqa
                 skipped.append(f"{qn}: now raised {type(e).__name__}")
-                continue
-            checked.append(qn)
-            if now.tzinfo is None or now.utcoffset() != timedelta(0):
-                failures.append(fw.Failure("oracle", {"scheduler": qn}, f"{qn}.now = {now!r} is not a timezone-aware UTC datetime"))
+        # CatchScheduler over the real-time schedulers
+        for qn in list(instances):
+            if any(k in qn for k in ("ImmediateScheduler", "CurrentThreadScheduler.", "TimeoutScheduler", "NewThreadScheduler",
+                                     "EventLoopScheduler", "TrampolineScheduler")):
+                try:
+                    out["now:Catch(" + qn.rsplit(".", 1)[1] + ")"] = describe(
+                        reactivex.scheduler.CatchScheduler(instances[qn], lambda e: True).now)
+                except Exception as e:  # noqa
+                    skipped.append(f"Catch({qn}): {type(e).__name__}")
+        # values produced by operators that read the clock
+        for name, sched in (("immediate", reactivex.scheduler.ImmediateScheduler()), ("current_thread", reactivex.scheduler.CurrentThreadScheduler()),
+                            ("default", None)):
+            got = []
+            src = reactivex.of(1, 2)
+            o = src.pipe(ops.timestamp(sched) if sched is not None else ops.timestamp())
+            o.subscribe(got.append, scheduler=sched) if sched is not None else o.subscribe(got.append)
+            for k, ts in enumerate(got):
+                out[f"timestamp:{name}:{k}"] = describe(ts.timestamp)
+            got2 = []
+            o2 = src.pipe(ops.time_interval(sched) if sched is not None else ops.time_interval())
+            o2.subscribe(got2.append, scheduler=sched) if sched is not None else o2.subscribe(got2.append)
+            out[f"time_interval:{name}"] = {"aware": True, "offset": 0.0, "tzname": "UTC", "is_utc_object": True,
+                                            "nonneg": all(ti.interval.total_seconds() >= 0 for ti in got2)}
+        for inst in instances.values():
             if hasattr(inst, "dispose"):
                 try:
                     inst.dispose()
@@ -323,6 +386,31 @@ def extra(rng, tier):
                     pass
     finally:
         loop.close()
+    return {"probes": out, "skipped": skipped}
+
+
+def _now_case(tz):
+    """run the probe in a child process whose local zone is `tz` (TZ set and tzset() called before reactivex is imported)"""
+    import json
+    import os
+    import subprocess
+    import sys
+
+    env = dict(os.environ)
+    if tz is not None:
+        env["TZ"] = tz
+    env["PYTHONPATH"] = os.pathsep.join([str(fw.VERIF / "harness"), str(fw.REPO)])
+    env["VERIF_REPO"] = str(fw.REPO)
+    code = ("import time; time.tzset(); import json, sys; import props.C36 as m; "
+            "r = m.now_probe(); r['local_offset'] = -time.timezone; print('NOWPROBE' + json.dumps(r))")
+    p = subprocess.run([sys.executable, "-c", code], env=env, capture_output=True, text=True, timeout=120)
+    for line in p.stdout.splitlines():
+        if line.startswith("NOWPROBE"):
+            return json.loads(line[len("NOWPROBE"):])
+    raise RuntimeError(f"now probe failed under TZ={tz}: rc={p.returncode} {p.stderr[-800:]}")
+
+
+def extra(rng, tier):
     # structural: which classes define their own `now`
     own = []
     for p in (fw.REPO / "reactivex" / "scheduler").rglob("*.py"):
@@ -335,7 +423,7 @@ def extra(rng, tier):
                 for f in node.body:
                     if isinstance(f, ast.FunctionDef) and f.name == "now":
                         own.append(f"{p.relative_to(fw.REPO)}:{node.name}")
-    return {"failures": failures, "coverage": {"now_checked_on": checked, "now_not_checked": skipped, "classes_defining_now": sorted(own)}}
+    return {"failures": [], "coverage": {"classes_defining_now": sorted(own), "now_probe_zones": [z or "(environment)" for z in NOW_ZONES]}}
 
 
 LEVEL_TEXT = ("Lean theorems on the exact integer-microsecond model: timedelta <-> datetime round-trip exactly (all values); to_seconds, "
